@@ -13,6 +13,31 @@ from ..values import PyBytes, SBool, SBytes, SStr, Sym
 from . import note
 
 sha256_of = z3.Function("sha256", PyBytes, PyBytes)
+bytes_prefix = z3.Function("bytes_prefix", PyBytes, z3.IntSort(), PyBytes)  # b[:n] of an abstract byte string
+
+
+class SymHash:
+    """hashlib.sha256(<abstract bytes>): only digest() is available, as an uninterpreted function of the input."""
+
+    def __init__(self, t):
+        self.t = t
+
+    def digest(self):
+        note("hashlib.sha256", "SHA-256 of abstract bytes is an uninterpreted function of the input (32 bytes)")
+        return SBytes(sha256_of(self.t), length=32)
+
+    def hexdigest(self):
+        raise Unsupported("hexdigest of a symbolic hash")
+
+
+def bytes_attr_model(it, o, name):
+    if isinstance(o, SBytes) and name == "__getitem__":
+        def f(k):
+            if isinstance(k, slice) and k.step is None and k.start in (None, 0) and isinstance(k.stop, int) and k.stop >= 0 and isinstance(o.length, int) and k.stop <= o.length:
+                return SBytes(bytes_prefix(o.t, k.stop), length=k.stop)
+            raise Unsupported("subscript of abstract bytes")
+        return f
+    return NotImplemented
 
 
 class _Identity:
@@ -36,11 +61,14 @@ def install(it):
             return None
         if slf is os.environ:
             return getattr({}, fn.__name__)(*args, **kwargs)  # the checker's own environment is not an input
+        if fn is hashlib.sha256 and args and isinstance(it.unbase(args[0]), SBytes):
+            return SymHash(it.unbase(args[0]).t)
         if fn is hashlib.sha256 and args and isinstance(it.unbase(args[0]), Sym):
             raise Unsupported("sha256 of symbolic data (use the descriptor-hash contract)")
         return _orig(fn, args, kwargs)
 
     it.call_native = call_native
+    it.attr_models.append(bytes_attr_model)
     install_compile(it)
     install_ipaddress(it)
     install_total_ordering(it)
